@@ -22,7 +22,8 @@ ASSUMPTIONS = ["token positions strictly increasing and tokens non-empty (provid
 regen = C15.regen
 REGRESS = [("Python", 'def f():\n    """doc\n    more\n    """\n'),            # F13: multi-line last token
            ("Python", "def f():\n    x = '''a\nb'''\n"),
-           ("JavaScript", "function f() {\n  return `a\nb`}\n")]
+           ("JavaScript", "function f() {\n  return `a\nb`}\n"),
+           ("Python", "def o():\n  def f():\n      def\n  g():\n    pass\n")]   # name outside the span
 
 
 def cases(ctx):
